@@ -69,6 +69,10 @@ pub static CLONEPOINT: std::sync::atomic::AtomicBool = std::sync::atomic::Atomic
 pub static CLONEFROM: std::sync::atomic::AtomicBool = std::sync::atomic::AtomicBool::new(false);
 /// set while the iterator of slot 0 lives in the last slot (`relocate`)
 pub static RELOCATED: std::sync::atomic::AtomicBool = std::sync::atomic::AtomicBool::new(false);
+/// inside a wait window of the schedule: atomic loads are scheduling points as always but are not logged
+pub static QUIET_LOADS: std::sync::atomic::AtomicBool = std::sync::atomic::AtomicBool::new(false);
+pub static FREE_RUN: std::sync::atomic::AtomicUsize = std::sync::atomic::AtomicUsize::new(usize::MAX);
+pub static FREE_UNTIL: Mutex<Option<std::time::Instant>> = Mutex::new(None);
 pub static RAWSKIP: std::sync::atomic::AtomicBool = std::sync::atomic::AtomicBool::new(false);
 /// logged destructions of (non-clone) elements so far in this case, and the one that panics
 pub static DROPS: AtomicU64 = AtomicU64::new(0);
@@ -196,6 +200,16 @@ pub fn wait_grant(t: usize, give_back: bool) -> bool {
 
 /// Scheduling point inside crate/probe code: blocks for a grant; on abort unwinds the thread.
 pub fn point(t: usize) {
+    // inside a wait window of the schedule the thread keeps the token: it runs at native speed until the window closes
+    if FREE_RUN.load(Ordering::Relaxed) == t {
+        let open = FREE_UNTIL
+            .lock()
+            .unwrap_or_else(|e| e.into_inner())
+            .map_or(false, |d| std::time::Instant::now() < d);
+        if open {
+            return;
+        }
+    }
     if !wait_grant(t, true) {
         mark_silent();
         set_track(false);
@@ -330,6 +344,9 @@ impl Observer for Obs {
 
     fn after(&self, a: &Access) {
         if !ACTIVE.load(Ordering::Relaxed) || !LOG_ON.load(Ordering::Relaxed) || silent() {
+            return;
+        }
+        if a.kind == AccessKind::Load && QUIET_LOADS.load(Ordering::Relaxed) {
             return;
         }
         let prev = set_track(false);
